@@ -1,3 +1,4 @@
+import NomtModel.Store.WalkerSim
 import NomtModel.Store.WalkerModel
 import NomtModel.Store.WalkerTreeRun3
 import NomtModel.Core.TriePosReach
@@ -10,106 +11,20 @@ the stack holds exactly the pages from the page of the position up to the parent
 stack holds what the flat store holds at the slot's path.  Every step of the mirror then (i) does not reach a panic site and
 (ii) leads to a state that simulates the corresponding step of the tree walker.
 -/
-namespace Nomt.Walker
+namespace Nomt.Walker.G
 open Nomt Nomt.TriePos
 open Nomt.Wal (PageDiff)
 
 variable {Node VH : Type} [DecidableEq Node] [DecidableEq VH] (H : Hasher Node VH)
 
-/-- number of pages above the stack: `0` without parent page, `depth(parent) + 1` with one -/
-def k0 (parent : Option PageId) : Nat :=
-  match parent with
-  | none => 0
-  | some pp => pp.length + 1
+/-- the one panic site the generalised simulation does not exclude: the `try_into().unwrap()` of the counter arithmetic in
+`handle_elision_threshold` (`new_parent_children_leaves_counter < 0`) -/
+def GUARD : String := "handle_elision_threshold: try_into().unwrap()"
 
-/-- the tree-walker configuration of a mirror walk -/
-def cfgOf (ps : PageSet Node) (parent : Option PageId) : TWCfg Node :=
-  { fresh := fun q => (ps.fresh (specPage q)).getD (specIndex q) H.term
-    top := 6 * k0 parent
-    hasParent := parent.isSome }
-
-/-- the page ids of a stack (top first): each entry is the parent page of the one above, the bottom one is the root page
-(no parent page) or a child of the parent page -/
-def ChainBelow (parent : Option PageId) : List PageId → Prop
-  | [] => True
-  | [P] => (match parent with
-            | none => P = []
-            | some pp => P ≠ [] ∧ P.dropLast = pp)
-  | P :: Q :: rest => P ≠ [] ∧ Q = P.dropLast ∧ ChainBelow parent (Q :: rest)
-
-/-- the leaf counters of a stack entry cannot make `handle_elision_threshold` fail: a page loaded from the hash table
-carries no counter, a fresh page (and the first elided page `reconstruct` inserts) starts from `0 / 0`.  (Reconstructed pages
-with real counters are not admitted yet: `notes/Q35.md` (d) 1.) -/
+/-- the leaf counters of a stack entry, ANY origin: a page that carries a current counter carries a previous one (so
+`prev_children_leaves_counter.unwrap()` cannot fail) -/
 def CountersOK (sp : StackPage Node) : Prop :=
-  (sp.prevChildrenLeaves = none ∧ sp.childrenLeaves = none) ∨
-  (sp.prevChildrenLeaves = some 0 ∧ sp.pageLeaves = some 0)
-
-/-- a stack page holds the flat store's values at the slots of its page -/
-def PageMatches (sp : StackPage Node) (st : Store Node) : Prop :=
-  sp.page.nodes.length = 126 ∧
-  ∀ q, q ≠ [] → q.length ≤ 256 → specPage q = sp.pageId → sp.page.nodes.getD (specIndex q) H.term = st q
-
-/-- the content a stack page started from: what `fresh` handed out, or the page of the page set -/
-def BaseOf (ps : PageSet Node) (P : PageId) (base : List Node) : Prop :=
-  base = ps.fresh P ∨ ∃ e o, ps.get P = some (⟨base, e⟩, o)
-
-/-- the diff of a page names every slot whose content differs from what the page started from -/
-def DiffNames (nodes base : List Node) (d : PageDiff) : Prop :=
-  ∀ i, i < 126 → nodes.getD i H.term ≠ base.getD i H.term → d.changed i = true
-
-def DiffOK (ps : PageSet Node) (sp : StackPage Node) : Prop :=
-  ∃ base, BaseOf ps sp.pageId base ∧ DiffNames H sp.page.nodes base sp.diff
-
-/-- accessors of an output page (updated or reconstructed) -/
-def PageOut.pageId : PageOut Node → PageId
-  | .updated P _ _ _ => P
-  | .reconstructed P _ _ _ => P
-
-def PageOut.page : PageOut Node → Page Node
-  | .updated _ pg _ _ => pg
-  | .reconstructed _ pg _ _ => pg
-
-def PageOut.diff : PageOut Node → PageDiff
-  | .updated _ _ d _ => d
-  | .reconstructed _ _ _ d => d
-
-/-- the children counter a reconstructed page is handed out with (`0` for an updated page) -/
-def PageOut.childrenLeaves : PageOut Node → Nat
-  | .updated .. => 0
-  | .reconstructed _ _ cl _ => cl
-
-/-- the current `children_leaves_counter` of a stack page, `0` when it was not touched yet -/
-def clOf (sp : StackPage Node) : Nat := sp.childrenLeaves.getD 0
-
-/-- `count_leaves` of an output page -/
-def outLeaves (o : PageOut Node) : Nat := countLeaves H o.page
-
-/-- an output page is the page as it was when it was popped: its slots are what the logged store held, and its diff names
-every slot that differs from what the page started from -/
-def OutMatches (ps : PageSet Node) (o : PageOut Node) (log : List (PageId × Store Node)) : Prop :=
-  ∃ st, (o.pageId, st) ∈ log ∧ o.page.nodes.length = 126 ∧
-    (∀ q, q ≠ [] → q.length ≤ 256 → specPage q = o.pageId → o.page.nodes.getD (specIndex q) H.term = st q) ∧
-    ∃ base, BaseOf ps o.pageId base ∧ DiffNames H o.page.nodes base o.diff
-
-/-- what the simulation knows about the two modes of the walker: the kind of the output pages; for a reconstructor
-(`new_reconstructor`): elision is not inhibited, every page on the stack carries the counters of a page that was created in this
-walk (`0 / 0`), the children counters on the stack never exceed the leaves counted in the pages handed out so far, and the
-pages handed out are, in order, the pages the tree walker logged -/
-structure ReconInv (w : Walker Node) (a : TW Node) : Prop where
-  kinds : ∀ o ∈ w.outputPages, o.isReconstructed = w.reconstruction
-  rc : w.reconstruction = true → w.inhibitElision = false ∧
-    ∀ sp ∈ w.stack, sp.prevChildrenLeaves = some 0 ∧ sp.pageLeaves = some 0
-  acct : w.reconstruction = true → (w.stack.map clOf).sum ≤ (w.outputPages.map (outLeaves H)).sum
-  outIds : w.reconstruction = true → w.outputPages.map PageOut.pageId = a.log.map (·.1)
-
-theorem ReconInv.cast {w w' : Walker Node} {a a' : TW Node} (h : ReconInv H w a)
-    (e1 : w'.outputPages = w.outputPages) (e2 : w'.reconstruction = w.reconstruction)
-    (e3 : w'.inhibitElision = w.inhibitElision) (e4 : w'.stack = w.stack) (e5 : a'.log = a.log) : ReconInv H w' a' := by
-  refine ⟨?_, ?_, ?_, ?_⟩
-  · rw [e1, e2]; exact h.kinds
-  · rw [e2, e3, e4]; exact h.rc
-  · rw [e1, e2, e4]; exact h.acct
-  · rw [e1, e2, e5]; exact h.outIds
+  sp.childrenLeaves.isSome = true → sp.prevChildrenLeaves.isSome = true
 
 structure Sim (ps : PageSet Node) (w : Walker Node) (a : TW Node) : Prop where
   wf : w.position.WF
@@ -140,74 +55,6 @@ theorem outMatches_updated {ps : PageSet Node} {w : Walker Node} {a : TW Node} (
   | reconstructed P pg cl d => simp [PageOut.isReconstructed] at hk
 
 /-! ## slots and paths -/
-
-theorem path_of_slot (q1 q2 : Path) (h1 : q1 ≠ []) (h2 : q2 ≠ []) (hp : specPage q1 = specPage q2)
-    (hi : specIndex q1 = specIndex q2) : q1 = q2 := by
-  rw [← slotPath_spec q1 h1, ← slotPath_spec q2 h2, hp, hi]
-
-theorem specIndex_sibPath (q : Path) (h : q ≠ []) : specIndex (sibPath q) = siblingIndexOf (specIndex q) := by
-  rcases List.eq_nil_or_concat q with h' | ⟨l, b, h'⟩
-  · exact absurd h' h
-  · subst h'
-    rw [List.concat_eq_append, sibPath_snoc, siblingIndexOf_snoc]
-
-theorem pos_depth_pos {w : Walker Node} {a : TW Node} (hwf : w.position.WF) (hpos : w.position.path = a.pos) :
-    w.position.depth = a.pos.length := by
-  rw [← hpos, w.position.path_length hwf]
-
-theorem getD_set_eq {α : Type} (l : List α) (i : Nat) (x d : α) (h : i < l.length) : (l.set i x).getD i d = x := by
-  simp [List.getD, List.getElem?_set, h]
-
-theorem getD_set_ne {α : Type} (l : List α) (i j : Nat) (x d : α) (h : i ≠ j) : (l.set i x).getD j d = l.getD j d := by
-  simp [List.getD, List.getElem?_set, h]
-
-/-- the ids of a chain get strictly shorter -/
-theorem chain_shorter (parent : Option PageId) : ∀ (P : PageId) (rest : List PageId), ChainBelow parent (P :: rest) →
-    ∀ Q ∈ rest, Q.length < P.length := by
-  intro P rest
-  induction rest generalizing P with
-  | nil => intro _ Q hQ; cases hQ
-  | cons R rest ih =>
-    intro h Q hQ
-    obtain ⟨hne, hR, hrest⟩ := h
-    have hlen : R.length < P.length := by
-      rw [hR, List.length_dropLast]
-      have : 1 ≤ P.length := List.length_pos_iff.mpr hne
-      omega
-    rcases List.mem_cons.mp hQ with e | hQ'
-    · rw [e]; exact hlen
-    · exact Nat.lt_trans (ih R hrest Q hQ') hlen
-
-theorem chain_tail (parent : Option PageId) (P : PageId) (rest : List PageId) (h : ChainBelow parent (P :: rest)) :
-    ChainBelow parent rest := by
-  cases rest with
-  | nil => trivial
-  | cons Q rest => exact h.2.2
-
-/-- the length of the top id of a chain -/
-theorem chain_top_length (parent : Option PageId) : ∀ (P : PageId) (rest : List PageId), ChainBelow parent (P :: rest) →
-    P.length = k0 parent + rest.length := by
-  intro P rest
-  induction rest generalizing P with
-  | nil =>
-    intro h
-    cases parent with
-    | none => simp only [ChainBelow] at h; subst h; rfl
-    | some pp =>
-      simp only [ChainBelow] at h
-      obtain ⟨hne, hd⟩ := h
-      have : 1 ≤ P.length := List.length_pos_iff.mpr hne
-      have := congrArg List.length hd
-      rw [List.length_dropLast] at this
-      simp [k0]; omega
-  | cons R rest ih =>
-    intro h
-    obtain ⟨hne, hR, hrest⟩ := h
-    have := ih R hrest
-    have h1 : 1 ≤ P.length := List.length_pos_iff.mpr hne
-    have h2 : R.length = P.length - 1 := by rw [hR, List.length_dropLast]
-    simp only [List.length_cons]
-    omega
 
 section
 variable (ps : PageSet Node)
@@ -315,17 +162,6 @@ theorem sim_siblingNode {w : Walker Node} {a : TW Node} (h : Sim H ps w a) (hd :
   rw [hsi, hm (sibPath a.pos) hsne (by rw [sibPath_length]; exact sim_len H ps h)
     (by rw [specPage_sibPath]; exact htop.symm)]
   rfl
-
-/-- the fields no internal move touches -/
-def Same (w w' : Walker Node) : Prop :=
-  w'.parentPage = w.parentPage ∧ w'.lastPosition = w.lastPosition ∧ w'.inhibitElision = w.inhibitElision ∧
-  w'.preFix = w.preFix ∧ w'.reconstruction = w.reconstruction
-
-theorem Same.rfl' (w : Walker Node) : Same w w := ⟨rfl, rfl, rfl, rfl, rfl⟩
-
-theorem Same.trans' {w1 w2 w3 : Walker Node} (h1 : Same w1 w2) (h2 : Same w2 w3) : Same w1 w3 :=
-  ⟨h2.1.trans h1.1, h2.2.1.trans h1.2.1, h2.2.2.1.trans h1.2.2.1, h2.2.2.2.1.trans h1.2.2.2.1,
-   h2.2.2.2.2.trans h1.2.2.2.2⟩
 
 /-- writing one slot of the page on top of the stack = writing the flat store at the slot's path -/
 theorem sim_write_top {w : Walker Node} {a : TW Node} (h : Sim H ps w a) (top : StackPage Node)
@@ -466,4 +302,4 @@ theorem sim_setSibling {w : Walker Node} {a : TW Node} (h : Sim H ps w a) (hd : 
 
 end
 
-end Nomt.Walker
+end Nomt.Walker.G
